@@ -940,26 +940,31 @@ def stageAny (h : H) (tmp ri : Ref) (ht : Nat) (ws : List Ref) : Except PyErr (H
     pure (h, tmp, tmp :: ws)
   else pure (h, tmp, ws)
 
-def stageOutK (k : H × Ref × List Ref → Except PyErr (H × Ref × List Ref))
-    (h : H) (tmp : Ref) (version locktime : Bytes) (seg : Bool) (a c : Ref) (ins outs : List Ref)
-    (i base : Nat) (ws : List Ref) : Except PyErr (H × Ref × List Ref) :=
-  if base = 2 then
-    let (h, b') := alloc h (.reflist [])
-    let h := write h tmp (.tx version locktime seg a b' c)
-    let (h, ws) := (ins.zipIdx.map fun p => (p.2, p.1)).foldl (zeroSeq i) (h, tmp :: ws)
-    k (h, tmp, ws)
-  else if base = 3 then
-    match outs[i]? with
-    | some o =>
+
+def tailStage (h : H) (tmp : Ref) (version locktime : Bytes) (seg : Bool) (a c : Ref) (ins outs : List Ref)
+    (i ht : Nat) (ri : Ref) (ws : List Ref) : Except PyErr (H × Ref × List Ref) := do
+  let (h, tmp, ws) ←
+    if ht &&& 0x1f = 2 then do
+      let (h, b') := alloc h (.reflist [])
+      let h := write h tmp (.tx version locktime seg a b' c)
+      let (h, ws) := (ins.zipIdx.map fun p => (p.2, p.1)).foldl (zeroSeq i) (h, tmp :: ws)
+      pure (h, tmp, ws)
+    else if ht &&& 0x1f = 3 then do
+      let some o := outs[i]? | throw PyErr.valueError
       let (h, fillers) := (List.range i).foldl fill (h, [])
       let (h, b') := alloc h (.reflist (fillers ++ [o]))
       let h := write h tmp (.tx version locktime seg a b' c)
       let (h, ws) := (ins.zipIdx.map fun p => (p.2, p.1)).foldl (zeroSeq i) (h, tmp :: ws)
-      k (h, tmp, ws)
-    | none => throw PyErr.valueError
-  else k (h, tmp, ws)
+      pure (h, tmp, ws)
+    else pure (h, tmp, ws)
+  if ht &&& 0x80 ≠ 0 then do
+    let some (.tx version locktime seg _ b2 c2) := h[tmp]? | throw PyErr.typeError
+    let (h, a') := alloc h (.reflist [ri])
+    let h := write h tmp (.tx version locktime seg a' b2 c2)
+    pure (h, tmp, tmp :: ws)
+  else pure (h, tmp, ws)
 
-def prepareStagedK (h : H) (self : Ref) (i : Nat) (code : Ref) (ht : Nat) : Except PyErr (H × Ref × List Ref) := do
+def prepareStaged (h : H) (self : Ref) (i : Nat) (code : Ref) (ht : Nat) : Except PyErr (H × Ref × List Ref) := do
   let (h, tmp) ← copyTx h self
   let some (.tx version locktime seg a b c) := h[tmp]? | throw PyErr.typeError
   let some (.reflist ins) := h[a]? | throw PyErr.typeError
@@ -969,32 +974,576 @@ def prepareStagedK (h : H) (self : Ref) (i : Nat) (code : Ref) (ht : Nat) : Exce
   let h := write h ri (.txin txid index code sequence)
   let ws := ri :: ws
   let some (.reflist outs) := h[b]? | throw PyErr.typeError
-  stageOutK (fun x => stageAny x.1 x.2.1 ri ht x.2.2) h tmp version locktime seg a c ins outs i (ht &&& 0x1f) ws
+  tailStage h tmp version locktime seg a c ins outs i ht ri ws
 
-theorem prepare_eqK (h : H) (self : Ref) (i : Nat) (code : Ref) (ht : Nat) :
-    legacyDigestPrepare h self i code ht = prepareStagedK h self i code ht := by
-  unfold legacyDigestPrepare prepareStagedK
-  cases copyTx h self with
-  | error e => rfl
+theorem prepare_eq (h : H) (self : Ref) (i : Nat) (code : Ref) (ht : Nat) :
+    legacyDigestPrepare h self i code ht = prepareStaged h self i code ht := rfl
+
+theorem tailStage_eq (h : H) (tmp : Ref) (version locktime : Bytes) (seg : Bool) (a c : Ref) (ins outs : List Ref)
+    (i ht : Nat) (ri : Ref) (ws : List Ref) :
+    tailStage h tmp version locktime seg a c ins outs i ht ri ws =
+      stageOut h tmp version locktime seg a c ins outs i (ht &&& 0x1f) ws >>=
+        fun x => stageAny x.1 x.2.1 ri ht x.2.2 := by
+  unfold tailStage stageOut
+  by_cases h2 : ht &&& 0x1f = 2
+  · simp only [h2, ↓reduceIte]; rfl
+  · by_cases h3 : ht &&& 0x1f = 3
+    · simp only [h3, ↓reduceIte]
+      cases outs[i]? <;> rfl
+    · simp only [h2, h3, ↓reduceIte]; rfl
+
+/-! ### every step keeps the old part of the heap (`cur = h ++ ext`) -/
+
+def Ext (h cur : H) : Prop := ∃ ext, cur = h ++ ext
+
+theorem Ext.refl (h : H) : Ext h h := ⟨[], by simp⟩
+
+theorem Ext.app {h cur : H} (e : Ext h cur) (more : H) : Ext h (cur ++ more) := by
+  obtain ⟨ext, rfl⟩ := e; exact ⟨ext ++ more, by simp⟩
+
+theorem Ext.alloc {h cur : H} (e : Ext h cur) (o : Obj) : Ext h (alloc cur o).1 := e.app _
+
+theorem Ext.newScript {h cur : H} (e : Ext h cur) (items : List Tok) : Ext h (newScript cur items).1 := by
+  rw [newScript_eq]; exact e.app _
+
+theorem Ext.write {h cur : H} (e : Ext h cur) {w : Ref} (o : Obj) (hw : h.length ≤ w) : Ext h (write cur w o) := by
+  obtain ⟨ext, rfl⟩ := e; exact ⟨_, write_ext ext o hw⟩
+
+theorem Ext.foldBlank {h : H} {l : List Ref} (hl : ∀ r ∈ l, h.length ≤ r) :
+    ∀ (st : H × List Ref), Ext h st.1 → Ext h (l.foldl blank st).1 := by
+  induction l with
+  | nil => intro st e; exact e
+  | cons r rs ih =>
+    intro st e
+    rw [List.foldl_cons]
+    apply ih (fun x hx => hl x (by simp [hx]))
+    unfold blank
+    split
+    · exact (e.newScript []).write _ (hl r (by simp))
+    · exact e
+
+theorem Ext.foldZeroSeq {h : H} {i : Nat} {l : List (Nat × Ref)} (hl : ∀ p ∈ l, h.length ≤ p.2) :
+    ∀ (st : H × List Ref), Ext h st.1 → Ext h (l.foldl (zeroSeq i) st).1 := by
+  induction l with
+  | nil => intro st e; exact e
+  | cons r rs ih =>
+    intro st e
+    rw [List.foldl_cons]
+    apply ih (fun x hx => hl x (by simp [hx]))
+    unfold HeapLemmas.zeroSeq
+    split
+    · split
+      · exact e.write _ (hl r (by simp))
+      · exact e
+    · exact e
+
+theorem Ext.foldFill {h : H} {l : List Nat} :
+    ∀ (st : H × List Ref), Ext h st.1 → Ext h (l.foldl fill st).1 := by
+  induction l with
+  | nil => intro st e; exact e
+  | cons r rs ih =>
+    intro st e
+    rw [List.foldl_cons]
+    apply ih
+    unfold HeapLemmas.fill
+    exact (e.newScript []).alloc _
+
+theorem zip_snd_mem {ins : List Ref} {p : Nat × Ref} (hp : p ∈ ins.zipIdx.map fun p => (p.2, p.1)) : p.2 ∈ ins := by
+  simp only [List.mem_map] at hp
+  obtain ⟨q, hq, rfl⟩ := hp
+  obtain ⟨x, k⟩ := q
+  exact (List.mem_zipIdx hq).2.2 ▸ List.getElem_mem _
+
+
+theorem stageOut_ext {h cur : H} {tmp : Ref} {version locktime : Bytes} {seg : Bool} {a c : Ref} {ins outs : List Ref}
+    {i base : Nat} {ws : List Ref} {cur' : H} {tmp' : Ref} {ws' : List Ref}
+    (e : Ext h cur) (htmp : h.length ≤ tmp) (hins : ∀ r ∈ ins, h.length ≤ r)
+    (hs : stageOut cur tmp version locktime seg a c ins outs i base ws = .ok (cur', tmp', ws')) :
+    Ext h cur' ∧ tmp' = tmp := by
+  have hz : ∀ p ∈ ins.zipIdx.map (fun p => (p.2, p.1)), h.length ≤ p.2 := fun p hp => hins _ (zip_snd_mem hp)
+  unfold stageOut at hs
+  split at hs
+  · simp only [pure, Except.pure, Except.ok.injEq, Prod.mk.injEq] at hs
+    obtain ⟨rfl, rfl, rfl⟩ := hs
+    exact ⟨Ext.foldZeroSeq hz _ ((e.alloc _).write _ htmp), rfl⟩
+  · split at hs
+    · split at hs
+      · simp only [pure, Except.pure, Except.ok.injEq, Prod.mk.injEq] at hs
+        obtain ⟨rfl, rfl, rfl⟩ := hs
+        exact ⟨Ext.foldZeroSeq hz _ (((Ext.foldFill _ e).alloc _).write _ htmp), rfl⟩
+      · cases hs
+    · simp only [pure, Except.pure, Except.ok.injEq, Prod.mk.injEq] at hs
+      obtain ⟨rfl, rfl, rfl⟩ := hs
+      exact ⟨e, rfl⟩
+
+theorem stageAny_ext {h cur : H} {tmp ri : Ref} {ht : Nat} {ws : List Ref} {cur' : H} {tmp' : Ref} {ws' : List Ref}
+    (e : Ext h cur) (htmp : h.length ≤ tmp)
+    (hs : stageAny cur tmp ri ht ws = .ok (cur', tmp', ws')) : Ext h cur' ∧ tmp' = tmp := by
+  unfold stageAny at hs
+  split at hs
+  · split at hs
+    · simp only [pure, Except.pure, Except.ok.injEq, Prod.mk.injEq] at hs
+      obtain ⟨rfl, rfl, rfl⟩ := hs
+      exact ⟨(e.alloc _).write _ htmp, rfl⟩
+    · cases hs
+  · simp only [pure, Except.pure, Except.ok.injEq, Prod.mk.injEq] at hs
+    obtain ⟨rfl, rfl, rfl⟩ := hs
+    exact ⟨e, rfl⟩
+
+theorem reachTx_mem_ins {h : H} {tmp : Ref} {version locktime : Bytes} {seg : Bool} {a b c : Ref} {ins : List Ref}
+    (ht : h[tmp]? = some (.tx version locktime seg a b c)) (ha : h[a]? = some (.reflist ins)) :
+    tmp ∈ reachTx h tmp ∧ ∀ r ∈ ins, r ∈ reachTx h tmp := by
+  unfold reachTx
+  simp only [ht, ha]
+  constructor
+  · simp
+  · intro r hr
+    simp only [List.mem_append, List.mem_flatMap]
+    left; left; right
+    refine ⟨r, hr, ?_⟩
+    unfold reachTxIn; split <;> simp
+
+theorem prepare_ext {h : H} {self : Ref} {i : Nat} {code : Ref} {ht : Nat} {h' : H} {tmp : Ref} {ws : List Ref}
+    (hp : legacyDigestPrepare h self i code ht = .ok (h', tmp, ws)) : Ext h h' := by
+  rw [prepare_eq] at hp
+  unfold prepareStaged at hp
+  cases hcp : copyTx h self with
+  | error e => rw [hcp] at hp; cases hp
   | ok p =>
-    obtain ⟨h1, tmp⟩ := p
-    simp only [bind, Except.bind]
-    rcases h1[tmp]? with _ | (_|_|_|_|_|_|_|⟨version, locktime, seg, a, b, c⟩) <;> try rfl
-    rcases h1[a]? with _ | (_|_|ins|_|_|_|_|_) <;> try rfl
-    simp only []
-    show (match List.foldl blank (h1, []) ins with | (h, ws) => _) = _
-    rcases List.foldl blank (h1, []) ins with ⟨h2, ws⟩
-    trace_state
-    simp only []
-    rcases ins[i]? with _ | ri <;> try rfl
-    simp only []
-    rcases h2[ri]? with _ | (_|_|_|_|⟨txid, index, s, sequence⟩|_|_|_) <;> try rfl
-    simp only []
-    rcases (write h2 ri (Obj.txin txid index code sequence))[b]? with _ | (_|_|outs|_|_|_|_|_) <;> try rfl
-    simp only []
-    unfold stageOutK
-    trace_state
-    sorry
+    obtain ⟨h1, tmp1⟩ := p
+    rw [hcp] at hp
+    simp only [bind, Except.bind] at hp
+    obtain ⟨ext, rfl, hfresh, _, _⟩ := copyTx_spec hcp
+    split at hp
+    · rename_i version locktime seg a b c htmp
+      split at hp
+      · rename_i ins ha
+        have hmem := reachTx_mem_ins htmp ha
+        have htmp' := hfresh _ hmem.1
+        have hins : ∀ r ∈ ins, h.length ≤ r := fun r hr => hfresh _ (hmem.2 r hr)
+        split at hp
+        · rename_i ri hri
+          split at hp
+          · rename_i txid index s0 sequence hri2
+            split at hp
+            · rw [tailStage_eq] at hp
+              simp only [bind, Except.bind] at hp
+              split at hp
+              · cases hp
+              · rename_i v hso
+                obtain ⟨cur2, tmp2, ws2⟩ := v
+                have e1 : Ext h (write (List.foldl blank (h ++ ext, []) ins).1 ri
+                    (Obj.txin txid index code sequence)) :=
+                  (Ext.foldBlank hins _ ⟨ext, rfl⟩).write _ (hins ri (List.mem_of_getElem? hri))
+                obtain ⟨e2, rfl⟩ := stageOut_ext e1 htmp' hins hso
+                exact (stageAny_ext e2 htmp' hp).1
+            · cases hp
+          · cases hp
+        · cases hp
+      · cases hp
+    · cases hp
+
+
+theorem bind_ok {ε α β} {x : Except ε α} {f : α → Except ε β} {b : β} (h : x.bind f = .ok b) :
+    ∃ a, x = .ok a ∧ f a = .ok b := by
+  cases x with
+  | error e => cases h
+  | ok a => exact ⟨a, rfl, h⟩
+
+theorem legacyDigestH_ok {sha256 : Bytes → Bytes} {T : Tables} {h : H} {self code : Ref} {i ht : Nat} {h' : H} {d : Bytes}
+    (hd : legacyDigestH sha256 T h self i code ht = .ok (h', d)) :
+    ∃ tmp ws, legacyDigestPrepare h self i code ht = .ok (h', tmp, ws) := by
+  unfold legacyDigestH at hd
+  simp only [bind] at hd
+  obtain ⟨⟨h1, tmp, ws⟩, hp, hd⟩ := bind_ok hd
+  simp only at hd
+  split at hd
+  · rename_i t hv
+    obtain ⟨ser, hser, hd⟩ := bind_ok hd
+    obtain ⟨htb, hpk, hd⟩ := bind_ok hd
+    simp only [pure, Except.pure, Except.ok.injEq, Prod.mk.injEq] at hd
+    exact ⟨tmp, ws, by rw [hp, hd.1]⟩
+  · cases hd
+
+
+/-! ### simulation: objects that a stage does not mutate are kept -/
+
+/-- every object that is not of the mutated kind `m` stays where it is -/
+def Keeps (m : Obj → Bool) (c c' : H) : Prop := ∀ (x : Nat) (o : Obj), c[x]? = some o → m o = false → c'[x]? = some o
+
+def isTxin : Obj → Bool
+  | .txin .. => true
+  | _ => false
+
+def isTx : Obj → Bool
+  | .tx .. => true
+  | _ => false
+
+theorem Keeps.refl (m : Obj → Bool) (c : H) : Keeps m c c := fun _ _ h _ => h
+
+theorem Keeps.trans {m : Obj → Bool} {c1 c2 c3 : H} (k1 : Keeps m c1 c2) (k2 : Keeps m c2 c3) : Keeps m c1 c3 :=
+  fun x o h hm => k2 x o (k1 x o h hm) hm
+
+theorem keeps_ext (m : Obj → Bool) (c ext : H) : Keeps m c (c ++ ext) := fun _ _ h _ => get_ext ext h
+
+theorem keeps_write {m : Obj → Bool} {c : H} {w : Ref} {o0 : Obj} (o : Obj) (hw : c[w]? = some o0) (hm : m o0 = true) :
+    Keeps m c (write c w o) := by
+  intro x o' hx hmo
+  have : x ≠ w := by
+    rintro rfl
+    rw [hw] at hx
+    simp only [Option.some.injEq] at hx; subst hx
+    rw [hm] at hmo; cases hmo
+  rw [get_write_ne o this]; exact hx
+
+theorem Keeps.viewScript {m : Obj → Bool} {c c' : H} (k : Keeps m c c') (h1 : ∀ l, m (.script l) = false)
+    (h2 : ∀ t, m (.toklist t) = false) {r : Ref} {v} (hv : viewScript c r = some v) : viewScript c' r = some v := by
+  obtain ⟨l, g1, g2⟩ := viewScript_some.mp hv
+  exact viewScript_some.mpr ⟨l, k _ _ g1 (h1 _), k _ _ g2 (h2 _)⟩
+
+theorem Keeps.viewWit {m : Obj → Bool} {c c' : H} (k : Keeps m c c') (h1 : ∀ l, m (.wit l) = false)
+    (h2 : ∀ t, m (.strlist t) = false) {r : Ref} {v} (hv : viewWit c r = some v) : viewWit c' r = some v := by
+  obtain ⟨l, g1, g2⟩ := viewWit_some.mp hv
+  exact viewWit_some.mpr ⟨l, k _ _ g1 (h1 _), k _ _ g2 (h2 _)⟩
+
+theorem Keeps.viewTxOut {m : Obj → Bool} {c c' : H} (k : Keeps m c c') (h0 : ∀ a s, m (.txout a s) = false)
+    (h1 : ∀ l, m (.script l) = false)
+    (h2 : ∀ t, m (.toklist t) = false) {r : Ref} {v} (hv : viewTxOut c r = some v) : viewTxOut c' r = some v := by
+  obtain ⟨amount, s, toks, g1, g2, g3⟩ := viewTxOut_some.mp hv
+  exact viewTxOut_some.mpr ⟨amount, s, toks, k _ _ g1 (h0 _ _), k.viewScript h1 h2 g2, g3⟩
+
+theorem Keeps.viewTxIn {m : Obj → Bool} {c c' : H} (k : Keeps m c c') (h0 : ∀ a b s q, m (.txin a b s q) = false)
+    (h1 : ∀ l, m (.script l) = false)
+    (h2 : ∀ t, m (.toklist t) = false) {r : Ref} {v} (hv : viewTxIn c r = some v) : viewTxIn c' r = some v := by
+  obtain ⟨txid, index, s, sequence, toks, g1, g2, g3⟩ := viewTxIn_some.mp hv
+  exact viewTxIn_some.mpr ⟨txid, index, s, sequence, toks, k _ _ g1 (h0 _ _ _ _), k.viewScript h1 h2 g2, g3⟩
+
+theorem map_view_keep {α} {view : H → Ref → Option α} {c c' : H}
+    (hk : ∀ r v, view c r = some v → view c' r = some v)
+    {l : List Ref} {vs : List α} (hm : l.map (view c) = vs.map some) :
+    l.map (view c') = vs.map some := by
+  rw [← hm]
+  apply List.map_congr_left
+  intro x hx
+  obtain ⟨y, hy⟩ := map_some_mem hm x hx
+  rw [hy]; exact hk _ _ hy
+
+/-- a txin whose own cell is unchanged keeps its view when only txins are mutated -/
+theorem viewTxIn_keep {c c' : H} (k : Keeps isTxin c c') {r : Ref} (hr : ∀ o, c[r]? = some o → c'[r]? = some o)
+    {v} (hv : viewTxIn c r = some v) : viewTxIn c' r = some v := by
+  obtain ⟨txid, index, s, sequence, toks, g1, g2, g3⟩ := viewTxIn_some.mp hv
+  exact viewTxIn_some.mpr ⟨txid, index, s, sequence, toks, hr _ g1,
+    k.viewScript (fun _ => rfl) (fun _ => rfl) g2, g3⟩
+
+/-- a fold step that mutates exactly one txin -/
+structure TxinStep {β} (step : H × List Ref → β → H × List Ref) (tgt : β → Ref) (upd : β → TxIn → TxIn) : Prop where
+  keeps : ∀ st p, Keeps isTxin st.1 (step st p).1
+  others : ∀ st p x o, x ≠ tgt p → st.1[x]? = some o → (step st p).1[x]? = some o
+  view : ∀ st p v, viewTxIn st.1 (tgt p) = some v → viewTxIn (step st p).1 (tgt p) = some (upd p v)
+
+theorem TxinStep.fold {β} {step : H × List Ref → β → H × List Ref} {tgt : β → Ref} {upd : β → TxIn → TxIn}
+    (hs : TxinStep step tgt upd) : ∀ (l : List β) (st : H × List Ref), (l.map tgt).Nodup →
+      Keeps isTxin st.1 (l.foldl step st).1 ∧
+      (∀ x o, x ∉ l.map tgt → st.1[x]? = some o → (l.foldl step st).1[x]? = some o) ∧
+      (∀ p ∈ l, ∀ v, viewTxIn st.1 (tgt p) = some v → viewTxIn (l.foldl step st).1 (tgt p) = some (upd p v)) := by
+  intro l
+  induction l with
+  | nil =>
+    intro st _
+    exact ⟨Keeps.refl _ _, fun _ _ _ h => h, fun p hp => by cases hp⟩
+  | cons p0 rest ih =>
+    intro st hnd
+    rw [List.map_cons, List.nodup_cons] at hnd
+    obtain ⟨f1, f2, f3⟩ := ih (step st p0) hnd.2
+    rw [List.foldl_cons]
+    refine ⟨(hs.keeps st p0).trans f1, ?_, ?_⟩
+    · intro x o hx hxo
+      simp only [List.map_cons, List.mem_cons, not_or] at hx
+      exact f2 x o hx.2 (hs.others st p0 x o hx.1 hxo)
+    · intro p hp v hv
+      simp only [List.mem_cons] at hp
+      rcases hp with rfl | hp
+      · have h1 := hs.view st p v hv
+        exact viewTxIn_keep f1 (fun o ho => f2 _ o hnd.1 ho) h1
+      · have hne : tgt p ≠ tgt p0 := by
+          intro e; apply hnd.1; rw [← e]; exact List.mem_map_of_mem hp
+        have h1 : viewTxIn (step st p0).1 (tgt p) = some v :=
+          viewTxIn_keep (hs.keeps st p0) (fun o ho => hs.others st p0 _ o hne ho) hv
+        exact f3 p hp v h1
+
+
+theorem blank_step : TxinStep blank id (fun _ v => { v with scriptSig := [] }) := by
+  refine ⟨?_, ?_, ?_⟩
+  · intro st r
+    unfold blank
+    split
+    · rename_i txid index s sequence hr
+      rw [newScript_eq]
+      exact (keeps_ext _ _ _).trans (keeps_write _ (get_ext _ hr) rfl)
+    · exact Keeps.refl _ _
+  · intro st r x o hx hxo
+    unfold blank
+    split
+    · rw [newScript_eq]
+      simp only
+      have hx' : x ≠ r := hx
+      rw [get_write_ne _ hx']; exact get_ext _ hxo
+    · exact hxo
+  · intro st r v hv
+    obtain ⟨txid, index, s, sequence, toks, g1, g2, rfl⟩ := viewTxIn_some.mp hv
+    simp only [id] at g1 ⊢
+    unfold blank
+    simp only [g1, newScript_eq]
+    refine viewTxIn_some.mpr ⟨txid, index, st.1.length + 1, sequence, [], ?_, ?_, rfl⟩
+    · exact get_write_self _ (by simp; have := get_lt g1; omega)
+    · rw [viewScript_frame]
+      · exact newScript_view _ _
+      · rw [newScript_reach]
+        have := get_lt g1
+        simp only [List.mem_cons, List.not_mem_nil, or_false]
+        intro hh
+        rcases hh with hh | hh
+        · rw [hh] at this; exact absurd this (Nat.not_lt.mpr (Nat.le_succ _))
+        · rw [hh] at this; exact absurd this (Nat.lt_irrefl _)
+
+theorem zeroSeq_step (i : Nat) :
+    TxinStep (zeroSeq i) Prod.snd (fun p v => if p.1 ≠ i then { v with sequence := [0, 0, 0, 0] } else v) := by
+  refine ⟨?_, ?_, ?_⟩
+  · intro st p
+    unfold zeroSeq
+    split
+    · split
+      · rename_i hr
+        exact keeps_write _ hr rfl
+      · exact Keeps.refl _ _
+    · exact Keeps.refl _ _
+  · intro st p x o hx hxo
+    unfold zeroSeq
+    split
+    · split
+      · simp only
+        rw [get_write_ne _ hx]; exact hxo
+      · exact hxo
+    · exact hxo
+  · intro st p v hv
+    obtain ⟨txid, index, s, sequence, toks, g1, g2, rfl⟩ := viewTxIn_some.mp hv
+    unfold zeroSeq
+    by_cases hp : p.1 ≠ i
+    · rw [if_pos hp, if_pos hp]
+      simp only [g1]
+      refine viewTxIn_some.mpr ⟨txid, index, s, [0, 0, 0, 0], toks, get_write_self _ (get_lt g1), ?_, rfl⟩
+      exact (keeps_write _ g1 rfl : Keeps isTxin _ _).viewScript (fun _ => rfl) (fun _ => rfl) g2
+    · simp only [hp, ↓reduceIte]
+      exact hv
+
+/-! ### list-level consequences -/
+
+theorem map_some_length {α β} {f : α → Option β} {l : List α} {v : List β} (hm : l.map f = v.map some) :
+    l.length = v.length := by
+  have := congrArg List.length hm
+  simpa using this
+
+theorem map_some_get {α β} {f : α → Option β} {l : List α} {v : List β} (hm : l.map f = v.map some)
+    {k : Nat} {x : α} (hx : l[k]? = some x) : ∃ y, v[k]? = some y ∧ f x = some y := by
+  have := congrArg (fun l => l[k]?) hm
+  simp only [List.getElem?_map, hx, Option.map_some] at this
+  cases hv : v[k]? with
+  | none => rw [hv] at this; cases this
+  | some y =>
+    rw [hv] at this
+    simp only [Option.map_some, Option.some.injEq] at this
+    exact ⟨y, rfl, this⟩
+
+/-- indexed update of every element -/
+theorem map_view_mapIdx {α} {view view' : Ref → Option α} {l : List Ref} {I : List α} (g : Nat → α → α)
+    (hm : l.map view = I.map some)
+    (hu : ∀ k r, l[k]? = some r → ∀ v, view r = some v → view' r = some (g k v)) :
+    l.map view' = (I.mapIdx g).map some := by
+  apply List.ext_getElem?
+  intro k
+  simp only [List.getElem?_map, List.getElem?_mapIdx]
+  cases hl : l[k]? with
+  | none =>
+    have : I[k]? = none := by
+      have h1 := map_some_length hm
+      have h2 := List.getElem?_eq_none_iff.mp hl
+      exact List.getElem?_eq_none_iff.mpr (by omega)
+    simp [this]
+  | some r =>
+    obtain ⟨y, hy, hv⟩ := map_some_get hm hl
+    simp only [hy, Option.map_some, hu k r hl y hv]
+
+theorem map_view_map {α} {view view' : Ref → Option α} {l : List Ref} {I : List α} (g : α → α)
+    (hm : l.map view = I.map some)
+    (hu : ∀ r ∈ l, ∀ v, view r = some v → view' r = some (g v)) :
+    l.map view' = (I.map g).map some := by
+  have := map_view_mapIdx (fun _ => g) hm (fun k r hk v hv => hu r (List.mem_of_getElem? hk) v hv)
+  rw [this]
+  congr 1
+  apply List.ext_getElem?
+  intro k
+  simp only [List.getElem?_mapIdx, List.getElem?_map]
+
+/-- update of the element at one position (the references are pairwise distinct) -/
+theorem map_view_set {α} {view view' : Ref → Option α} {l : List Ref} {I : List α} (hnd : l.Nodup)
+    {i : Nat} {ri : Ref} (hi : l[i]? = some ri) (v' : α)
+    (hm : l.map view = I.map some)
+    (hother : ∀ r ∈ l, r ≠ ri → ∀ v, view r = some v → view' r = some v)
+    (hself : view' ri = some v') :
+    l.map view' = (I.set i v').map some := by
+  apply List.ext_getElem?
+  intro k
+  simp only [List.getElem?_map, List.getElem?_set]
+  have hlen := map_some_length hm
+  cases hl : l[k]? with
+  | none =>
+    have h2 := List.getElem?_eq_none_iff.mp hl
+    have hki : i ≠ k := by
+      rintro rfl; rw [hi] at hl; cases hl
+    have : I[k]? = none := List.getElem?_eq_none_iff.mpr (by omega)
+    simp [hki, this]
+  | some r =>
+    obtain ⟨y, hy, hv⟩ := map_some_get hm hl
+    by_cases hki : i = k
+    · subst hki
+      rw [hi] at hl
+      simp only [Option.some.injEq] at hl; subst hl
+      have : i < I.length := (List.getElem?_eq_some_iff.mp hy).1
+      simp [this, hself]
+    · have hne : r ≠ ri := by
+        rintro rfl
+        have h2 := (List.getElem?_eq_some_iff.mp hi).1
+        exact hki ((List.getElem?_inj h2 hnd).mp (hi.trans hl.symm))
+      simp only [hki, ↓reduceIte, hy, Option.map_some, hother r (List.mem_of_getElem? hl) hne y hv]
+
+
+/-! ### the state of the temporary transaction during `get_transaction_digest` -/
+
+structure St (cur : H) (tmp : Ref) (version locktime : Bytes) (seg : Bool) (a b c : Ref)
+    (ins outs wits : List Ref) (I : List TxIn) (O : List TxOut) (W : List (List Bytes)) : Prop where
+  htmp : cur[tmp]? = some (.tx version locktime seg a b c)
+  ha : cur[a]? = some (.reflist ins)
+  hb : cur[b]? = some (.reflist outs)
+  hc : cur[c]? = some (.reflist wits)
+  hI : ins.map (viewTxIn cur) = I.map some
+  hO : outs.map (viewTxOut cur) = O.map some
+  hW : wits.map (viewWit cur) = W.map some
+
+theorem St.view {cur : H} {tmp : Ref} {version locktime : Bytes} {seg : Bool} {a b c : Ref}
+    {ins outs wits : List Ref} {I : List TxIn} {O : List TxOut} {W : List (List Bytes)}
+    (s : St cur tmp version locktime seg a b c ins outs wits I O W) :
+    viewTx cur tmp = some ⟨version, I, O, locktime, seg, W⟩ :=
+  viewTx_some.mpr ⟨_, _, _, _, _, _, _, _, _, s.htmp, s.ha, s.hb, s.hc, s.hI, s.hO, s.hW, rfl, rfl, rfl⟩
+
+theorem St.txinStage {cur cur' : H} {tmp : Ref} {version locktime : Bytes} {seg : Bool} {a b c : Ref}
+    {ins outs wits : List Ref} {I I' : List TxIn} {O : List TxOut} {W : List (List Bytes)}
+    (s : St cur tmp version locktime seg a b c ins outs wits I O W) (k : Keeps isTxin cur cur')
+    (hI' : ins.map (viewTxIn cur') = I'.map some) :
+    St cur' tmp version locktime seg a b c ins outs wits I' O W :=
+  ⟨k _ _ s.htmp rfl, k _ _ s.ha rfl, k _ _ s.hb rfl, k _ _ s.hc rfl, hI',
+    map_view_keep (fun _ _ => k.viewTxOut (fun _ _ => rfl) (fun _ => rfl) (fun _ => rfl)) s.hO,
+    map_view_keep (fun _ _ => k.viewWit (fun _ => rfl) (fun _ => rfl)) s.hW⟩
+
+theorem blank_stage {cur : H} {tmp : Ref} {version locktime : Bytes} {seg : Bool} {a b c : Ref}
+    {ins outs wits : List Ref} {I : List TxIn} {O : List TxOut} {W : List (List Bytes)}
+    (s : St cur tmp version locktime seg a b c ins outs wits I O W) (hnd : ins.Nodup) (ws : List Ref) :
+    Keeps isTxin cur (ins.foldl blank (cur, ws)).1 ∧
+    St (ins.foldl blank (cur, ws)).1 tmp version locktime seg a b c ins outs wits
+      (I.map fun x => { x with scriptSig := [] }) O W := by
+  obtain ⟨f1, _, f3⟩ := blank_step.fold ins (cur, ws) (by simpa using hnd)
+  refine ⟨f1, s.txinStage f1 ?_⟩
+  exact map_view_map _ s.hI (fun r hr v hv => f3 r hr v hv)
+
+theorem zip_map_snd (ins : List Ref) : (ins.zipIdx.map fun p => (p.2, p.1)).map Prod.snd = ins := by
+  rw [List.map_map]
+  exact List.zipIdx_map_fst 0 ins
+
+theorem zeroSeq_stage {cur : H} {tmp : Ref} {version locktime : Bytes} {seg : Bool} {a b c : Ref}
+    {ins outs wits : List Ref} {I : List TxIn} {O : List TxOut} {W : List (List Bytes)}
+    (s : St cur tmp version locktime seg a b c ins outs wits I O W) (hnd : ins.Nodup) (i : Nat) (ws : List Ref) :
+    St ((ins.zipIdx.map fun p => (p.2, p.1)).foldl (zeroSeq i) (cur, ws)).1 tmp version locktime seg a b c
+      ins outs wits (zeroOtherSequences I i) O W := by
+  obtain ⟨f1, _, f3⟩ := (zeroSeq_step i).fold (ins.zipIdx.map fun p => (p.2, p.1)) (cur, ws)
+    (by rw [zip_map_snd]; exact hnd)
+  refine s.txinStage f1 ?_
+  unfold zeroOtherSequences
+  apply map_view_mapIdx _ s.hI
+  intro k r hk v hv
+  have hmem : (k, r) ∈ ins.zipIdx.map fun p => (p.2, p.1) := by
+    rw [List.mem_map]
+    exact ⟨(r, k), List.mem_zipIdx_iff_getElem?.mpr hk, rfl⟩
+  exact f3 (k, r) hmem v hv
+
+theorem bind_stage {cur : H} {tmp : Ref} {version locktime : Bytes} {seg : Bool} {a b c : Ref}
+    {ins outs wits : List Ref} {I : List TxIn} {O : List TxOut} {W : List (List Bytes)}
+    (s : St cur tmp version locktime seg a b c ins outs wits I O W) (hnd : ins.Nodup)
+    {i : Nat} {ri : Ref} (hi : ins[i]? = some ri) {txid : Bytes} {index : Int} {s0 : Ref} {sequence : Bytes}
+    (hri : cur[ri]? = some (.txin txid index s0 sequence)) {code : Ref} {toks : List Tok}
+    (hcode : viewScript cur code = some toks) {x : TxIn} (hx : I[i]? = some x) :
+    St (write cur ri (.txin txid index code sequence)) tmp version locktime seg a b c ins outs wits
+      (I.set i { x with scriptSig := toks }) O W := by
+  have k : Keeps isTxin cur (write cur ri (.txin txid index code sequence)) := keeps_write _ hri rfl
+  refine s.txinStage k ?_
+  obtain ⟨y, hy, hv⟩ := map_some_get s.hI hi
+  rw [hx] at hy
+  simp only [Option.some.injEq] at hy; subst hy
+  obtain ⟨txid', index', s', sequence', toks', g1, g2, rfl⟩ := viewTxIn_some.mp hv
+  rw [hri] at g1
+  simp only [Option.some.injEq, Obj.txin.injEq] at g1
+  obtain ⟨rfl, rfl, rfl, rfl⟩ := g1
+  apply map_view_set hnd hi _ s.hI
+  · intro r _ hne v hv'
+    exact viewTxIn_keep k (fun o ho => by rw [get_write_ne _ hne]; exact ho) hv'
+  · exact viewTxIn_some.mpr ⟨txid, index, code, sequence, toks, get_write_self _ (get_lt hri),
+      k.viewScript (fun _ => rfl) (fun _ => rfl) hcode, rfl⟩
+
+/-- rebinding an attribute of the temporary transaction: everything except transaction objects is kept -/
+theorem keepsTx_rebind {cur : H} {tmp : Ref} {o0 : Obj} (ho : cur[tmp]? = some o0) (htx : isTx o0 = true)
+    (ext : H) (o : Obj) : Keeps isTx cur (write (cur ++ ext) tmp o) :=
+  (keeps_ext _ _ _).trans (keeps_write _ (get_ext _ ho) htx)
+
+theorem keepsTx_mapIn {c c' : H} (k : Keeps isTx c c') {l : List Ref} {I : List TxIn}
+    (h : l.map (viewTxIn c) = I.map some) : l.map (viewTxIn c') = I.map some :=
+  map_view_keep (fun _ _ => k.viewTxIn (fun _ _ _ _ => rfl) (fun _ => rfl) (fun _ => rfl)) h
+
+theorem keepsTx_mapOut {c c' : H} (k : Keeps isTx c c') {l : List Ref} {O : List TxOut}
+    (h : l.map (viewTxOut c) = O.map some) : l.map (viewTxOut c') = O.map some :=
+  map_view_keep (fun _ _ => k.viewTxOut (fun _ _ => rfl) (fun _ => rfl) (fun _ => rfl)) h
+
+theorem keepsTx_mapWit {c c' : H} (k : Keeps isTx c c') {l : List Ref} {W : List (List Bytes)}
+    (h : l.map (viewWit c) = W.map some) : l.map (viewWit c') = W.map some :=
+  map_view_keep (fun _ _ => k.viewWit (fun _ => rfl) (fun _ => rfl)) h
+
+def filler : TxOut := { amount := -1, script := [] }
+
+theorem fill_eq (st : H × List Ref) (n : Nat) :
+    fill st n = (st.1 ++ [.toklist [], .script st.1.length, .txout (-1) (st.1.length + 1)], st.2 ++ [st.1.length + 2]) := by
+  simp [fill, newScript_eq, alloc]
+
+theorem fill_fold : ∀ (l : List Nat) (st : H × List Ref),
+    ∃ ext new, (l.foldl fill st).1 = st.1 ++ ext ∧ (l.foldl fill st).2 = st.2 ++ new ∧
+      new.map (viewTxOut (l.foldl fill st).1) = (List.replicate l.length filler).map some := by
+  intro l
+  induction l with
+  | nil => intro st; exact ⟨[], [], by simp, by simp, by simp⟩
+  | cons n rest ih =>
+    intro st
+    rw [List.foldl_cons]
+    obtain ⟨ext, new, e1, e2, e3⟩ := ih (fill st n)
+    rw [fill_eq] at e1 e2 e3 ⊢
+    simp only at e1 e2
+    refine ⟨_ ++ ext, (st.1.length + 2) :: new, by rw [e1, List.append_assoc], by rw [e2]; simp, ?_⟩
+    simp only [List.map_cons, List.length_cons, List.replicate_succ, List.cons.injEq]
+    refine ⟨?_, e3⟩
+    rw [e1]
+    apply viewTxOut_ext
+    have g2 : (st.1 ++ [Obj.toklist [], .script st.1.length, .txout (-1) (st.1.length + 1)])[st.1.length + 2]? =
+        some (.txout (-1) (st.1.length + 1)) := by rw [get_app]; rfl
+    have g1 : (st.1 ++ [Obj.toklist [], .script st.1.length, .txout (-1) (st.1.length + 1)])[st.1.length + 1]? =
+        some (.script st.1.length) := by rw [get_app]; rfl
+    have g0 : (st.1 ++ [Obj.toklist [], .script st.1.length, .txout (-1) (st.1.length + 1)])[st.1.length]? =
+        some (.toklist []) := by simp
+    exact viewTxOut_some.mpr ⟨_, _, _, g2, viewScript_some.mpr ⟨_, g1, g0⟩, rfl⟩
 
 
 end HeapLemmas
